@@ -705,6 +705,219 @@ func (c *c03State) drain(s *c01Sched, resolve bool) {
 }
 
 // ---------------------------------------------------------------------------
+// the decision table beyond two honest peers: a channel_reestablish that is
+// stale (the peer lost state), ahead (WE lost state: the peer proves it with
+// our own revocation secret), or inconsistent (wrong secret, wrong commit
+// point, no nonce), and the restored-from-backup channel status.
+//
+//   Q <node> kind=<forgery> restored=<0|1> nl=.. rt=.. sec=.. pt=.. nonce=.. nonces=.. dyn=..
+//       => <class> msgs=<tok,..> lcp=<ok|bad|-> q=0,0
+//
+// the fields are those the receiver decoded from the wire; <class> and the
+// messages are the real ProcessChanSyncMsg's answer; lcp = does the
+// ErrCommitSyncLocalDataLoss carry the commit point of the message.  The dump
+// that follows is the channel after the call (a re-sign of the "owe
+// revocation" arm stays, also when the call fails later); then the node
+// restarts (R line + dump) as it does after a failed link.
+// ---------------------------------------------------------------------------
+
+type c03Forge struct {
+	dNext, dTail int
+	sec          string // match (the secret that fits the claimed height) | keep | rand | zero
+	pt           string // match (the point that fits the claimed height) | keep | rand | absent
+	stripNonce   bool
+	restored     bool
+}
+
+func (f c03Forge) kind() string {
+	if f.dNext == 0 && f.dTail == 0 && f.sec == "match" && f.pt == "match" && !f.stripNonce &&
+		!f.restored {
+
+		return "honest"
+	}
+	return fmt.Sprintf("n%+d,t%+d,s:%s,p:%s,x%d,r%d", f.dNext, f.dTail, f.sec, f.pt,
+		c03b2i(f.stripNonce), c03b2i(f.restored))
+}
+
+func c03PickForge(r *rand.Rand) c03Forge {
+	f := c03Forge{sec: "match", pt: "match"}
+	delta := func() int { return c01Pick(r, -2, -1, -1, 1, 1, 2) }
+	switch x := r.Intn(20); {
+	case x < 2: // the honest message
+	case x < 6:
+		f.dTail = delta()
+	case x < 10:
+		f.dNext = delta()
+	case x < 12:
+		f.sec = c01Pick(r, "rand", "zero", "keep")
+		f.dTail = c01Pick(r, 0, 0, 1, -1)
+	case x < 14:
+		f.pt = c01Pick(r, "rand", "absent", "keep")
+		f.dNext = c01Pick(r, 0, 0, 1, -1)
+	case x < 15:
+		f.stripNonce = true
+	case x < 16:
+		f.restored = true
+		f.pt = c01Pick(r, "match", "absent")
+		f.dTail = c01Pick(r, 0, 1, -1)
+	default:
+		f.dTail = c01Pick(r, -2, -1, 0, 0, 1, 2)
+		f.dNext = c01Pick(r, -2, -1, 0, 0, 1, 2)
+		f.sec = c01Pick(r, "match", "match", "keep", "rand", "zero")
+		f.pt = c01Pick(r, "match", "match", "keep", "rand", "absent")
+		f.stripNonce = r.Intn(8) == 0
+	}
+	return f
+}
+
+// probe hands one forged channel_reestablish to the freshly restarted node x.
+func (c *c03State) probe(s *c01Sched, x int, f c03Forge) {
+	name := string(rune('A' + x))
+	ch, peer := s.p.Ch[x], s.p.Ch[1-x]
+	// as on a real reconnection the node builds its own message first
+	if _, err := ch.channelState.ChanSyncMsg(); err != nil {
+		s.stats["probe_skipped"]++
+		return
+	}
+	hm, err := peer.channelState.ChanSyncMsg()
+	if err != nil {
+		s.stats["probe_skipped"]++
+		return
+	}
+	m := *hm
+	nl := int64(hm.NextLocalCommitHeight) + int64(f.dNext)
+	tl := int64(hm.RemoteCommitTailHeight) + int64(f.dTail)
+	if nl < 0 {
+		nl = 0
+	}
+	if tl < 0 {
+		tl = 0
+	}
+	m.NextLocalCommitHeight, m.RemoteCommitTailHeight = uint64(nl), uint64(tl)
+	switch f.sec {
+	case "match":
+		m.LastRemoteCommitSecret = [32]byte{}
+		if tl > 0 {
+			sec, err := ch.channelState.RevocationProducer.AtIndex(uint64(tl - 1))
+			if err != nil {
+				s.stats["probe_skipped"]++
+				return
+			}
+			copy(m.LastRemoteCommitSecret[:], sec[:])
+		}
+	case "rand":
+		s.r.Read(m.LastRemoteCommitSecret[:])
+	case "zero":
+		m.LastRemoteCommitSecret = [32]byte{}
+	}
+	switch f.pt {
+	case "match":
+		if nl > 0 {
+			sec, err := peer.channelState.RevocationProducer.AtIndex(uint64(nl - 1))
+			if err != nil {
+				s.stats["probe_skipped"]++
+				return
+			}
+			m.LocalUnrevokedCommitPoint = input.ComputeCommitmentPoint(sec[:])
+		}
+	case "rand":
+		var b [32]byte
+		s.r.Read(b[:])
+		b[0] &= 0x7f
+		b[31] |= 1
+		_, pub := btcec.PrivKeyFromBytes(b[:])
+		m.LocalUnrevokedCommitPoint = pub
+	case "absent":
+		if !c.taproot {
+			m.LocalUnrevokedCommitPoint = nil
+		}
+	}
+	if f.stripNonce {
+		m.LocalNonce = lnwire.OptMusig2NonceTLV{}
+		m.LocalNonces = lnwire.OptLocalNonces{}
+	}
+	got, wres := c03WireRT(&m)
+	dec, ok := got.(*lnwire.ChannelReestablish)
+	if wres != "ok" || !ok {
+		s.stats["probe_skipped"]++
+		return
+	}
+	fields := c03ReestFields(s, 1-x, dec)
+	// the status of a channel restored from a static backup: set on the
+	// in-memory state only (the node is rebuilt from its database afterwards)
+	oldStatus := ch.channelState.ChannelStatusForStore()
+	if f.restored {
+		ch.channelState.SetChannelStatusForStore(oldStatus | chanstate.ChanStatusRestored)
+	}
+	var (
+		res  string
+		toks []string
+		lcp  = "-"
+	)
+	func() {
+		defer c01Recover(&res)
+		out, _, _, err := ch.ProcessChanSyncMsg(ctxb, dec)
+		res = c03SyncErrClass(err)
+		var ldl *ErrCommitSyncLocalDataLoss
+		switch {
+		case err == nil:
+			// the answer is never delivered: the connection drops again
+			_, toks = c.convert(s.p, x, out)
+		case errors.As(err, &ldl):
+			lcp = "bad"
+			if ldl.CommitPoint != nil && dec.LocalUnrevokedCommitPoint != nil &&
+				ldl.CommitPoint.IsEqual(dec.LocalUnrevokedCommitPoint) {
+
+				lcp = "ok"
+			}
+		case strings.Contains(err.Error(), "remote verification nonce not sent"):
+			res = "noNonce"
+		}
+	}()
+	if f.restored {
+		ch.channelState.SetChannelStatusForStore(oldStatus)
+	}
+	list := "-"
+	if len(toks) > 0 {
+		list = strings.Join(toks, ",")
+	}
+	s.emit(fmt.Sprintf("Q %s kind=%s restored=%d %s => %s msgs=%s lcp=%s q=0,0\n", name, f.kind(),
+		c03b2i(f.restored), fields, res, list, lcp))
+	s.dump(x)
+	s.stats["probes"]++
+	s.stats["probe_"+strings.SplitN(res, ":", 2)[0]]++
+	if f.kind() == "honest" {
+		s.stats["probes_honest"]++
+	}
+	if strings.HasPrefix(res, "signFailed") || res == "panic" {
+		s.dead = true
+		return
+	}
+	// the link has failed (or the connection dropped): the node restarts
+	r2, extra := c03Reload(s.p, x)
+	s.emit(fmt.Sprintf("R %s => %s %s q=0,0\n", name, r2, extra))
+	if r2 != "ok" {
+		s.dead = true
+		return
+	}
+	s.dump(x)
+}
+
+// dlpProbes: the connection is gone, both restart, then n forged
+// reestablish messages are tried, each followed by a restart of the receiver.
+func (c *c03State) dlpProbes(s *c01Sched, n int) {
+	if s.dead || n == 0 {
+		return
+	}
+	if !c.reloadBoth(s) {
+		return
+	}
+	for i := 0; i < n && !s.dead; i++ {
+		c.probe(s, s.r.Intn(2), c03PickForge(s.r))
+	}
+}
+
+// ---------------------------------------------------------------------------
 // cases
 // ---------------------------------------------------------------------------
 
@@ -718,6 +931,7 @@ type c03Plan struct {
 	maxSteps int
 	maxAdds  int
 	cutProb  int // one cut every cutProb steps on average (0: none besides the planned one)
+	probes   int // forged channel_reestablish probes at the end of the case
 }
 
 type c03Result struct {
@@ -807,7 +1021,7 @@ func c03RunCase(t *testing.T, pl c03Plan) *c03Result {
 			}
 		}
 
-	default: // rand
+	default: // rand | dlp
 		for i := 0; i < steps && !s.dead; i++ {
 			if pl.cutProb > 0 && r.Intn(pl.cutProb) == 0 {
 				c.cut(s, c.randomCut(s))
@@ -826,13 +1040,20 @@ func c03RunCase(t *testing.T, pl c03Plan) *c03Result {
 		}
 	}
 
-	// final: drain, one more reconnection of the quiescent channel, full dance
-	c.drain(s, r.Intn(2) == 0)
-	if !s.dead && r.Intn(2) == 0 {
-		c.cut(s, c03Cut{kA: 0, kB: 0, dlp: [2]bool{true, true}, half: -1})
+	if pl.kind == "dlp" {
+		// the decision table on mid-flight states: whatever is in the queues
+		// is lost, then forged / stale channel_reestablish messages
+		c.dlpProbes(s, pl.probes)
+	} else {
+		// final: drain, one more reconnection of the quiescent channel, full dance
+		c.drain(s, r.Intn(2) == 0)
+		if !s.dead && r.Intn(2) == 0 {
+			c.cut(s, c03Cut{kA: 0, kB: 0, dlp: [2]bool{true, true}, half: -1})
+		}
+		c.drain(s, true)
+		c.drain(s, false)
+		c.dlpProbes(s, pl.probes)
 	}
-	c.drain(s, true)
-	c.drain(s, false)
 	w.WriteString("END\n")
 	w.Flush()
 	res.stats["cases"]++
@@ -860,10 +1081,10 @@ func TestVerifC03(t *testing.T) {
 	defer w.Flush()
 
 	randPerKind, probesPerKind, maxSteps, maxAdds, probeSteps := 14, 2, 40, 6, 16
-	earlyPerKind := 3
+	earlyPerKind, dlpPerKind, dlpProbes, endProbes := 3, 5, 12, 2
 	if tier == "thorough" {
 		randPerKind, probesPerKind, maxSteps, maxAdds, probeSteps = 130, 10, 90, 10, 30
-		earlyPerKind = 20
+		earlyPerKind, dlpPerKind, dlpProbes = 20, 40, 16
 	}
 	if v, err := strconv.Atoi(os.Getenv("VERIF_C03_RAND")); err == nil && v >= 0 {
 		randPerKind = v
@@ -898,12 +1119,19 @@ func TestVerifC03(t *testing.T) {
 		for c := 0; c < randPerKind; c++ {
 			plans = append(plans, c03Plan{id: newID(), kind: "rand", ki: ki,
 				seed:     seed*1_000_003 + int64(ki)*10_007 + int64(c),
-				maxSteps: maxSteps, maxAdds: maxAdds, cutProb: 5 + c%6, cut: c03Cut{half: -1}})
+				maxSteps: maxSteps, maxAdds: maxAdds, cutProb: 5 + c%6, cut: c03Cut{half: -1},
+				probes: endProbes})
+		}
+		for c := 0; c < dlpPerKind; c++ {
+			plans = append(plans, c03Plan{id: newID(), kind: "dlp", ki: ki,
+				seed:     seed*4_000_037 + int64(ki)*40_009 + int64(c),
+				maxSteps: 30, maxAdds: maxAdds, cutProb: 6 + c%5, cut: c03Cut{half: -1},
+				probes: dlpProbes})
 		}
 		for c := 0; c < earlyPerKind; c++ {
 			plans = append(plans, c03Plan{id: newID(), kind: "early", ki: ki,
 				seed:     seed*3_000_017 + int64(ki)*30_011 + int64(c),
-				maxSteps: 24, maxAdds: maxAdds, cut: c03Cut{half: -1}})
+				maxSteps: 24, maxAdds: maxAdds, cut: c03Cut{half: -1}, probes: endProbes})
 		}
 		for c := 0; c < probesPerKind; c++ {
 			probes = append(probes, c03Plan{id: newID(), kind: "probe", ki: ki,
